@@ -60,3 +60,11 @@ def _img10_subvariant_pair(info, sig):
     """C05 F-05b: an images 1.0 document holding two images that only 'subvariant' (new in 1.1) would distinguish."""
     return (info.get("kind") == "images-upgrade" and bool(info["case"].get("subvariant_pair")) and info["case"]["ver"] == 100
             and "cannot be re-read" in info["why"] and "UNIQUE_IMAGE_ATTRIBUTES" in info["why"])
+
+
+@signature("ini_lone_surrogate_text")
+def _ini_surrogate(info, sig):
+    """C18 F-18c: a treeinfo / discinfo text value holds a lone surrogate; the text is built before the destination is opened,
+    but only the file object can tell that it cannot be encoded."""
+    return (info.get("kind") == "payload" and info["case"].get("fmt") in ("treeinfo", "discinfo")
+            and "lone surrogate" in info["case"]["payload"] and "the dump was rejected" in info["why"])
